@@ -251,6 +251,26 @@ Variable body : Z -> st -> st.
 Definition unroll_sem (ivs : list Z) (s : st) : st := fold_left (fun a i => body i a) ivs s.
 End Unroll.
 
+(* scf.yield with several loop-carried values is a SIMULTANEOUS assignment: position j of the next
+   tuple is `new` (a value computed in this iteration) when sel_j = -1, otherwise the CURRENT value
+   of carried position sel_j.  UnrollLoopPattern realises it by building the tuple of the next
+   iteration's values from the value map of the current iteration (`iter_args = tuple(...)`). *)
+Definition yield_sim (sel : list Z) (vals : list Z) (new : Z) : list Z :=
+  map (fun sj => if sj <? 0 then new else nth (Z.to_nat sj) vals 0) sel.
+(* what a one-position-after-another overwrite would compute instead (NOT the semantics; kept to
+   show that the two differ on permuting yields) *)
+Fixpoint set_nth (j : nat) (v : Z) (l : list Z) : list Z :=
+  match l, j with
+  | [], _ => []
+  | _ :: r, O => v :: r
+  | x :: r, S j' => x :: set_nth j' v r
+  end.
+Definition yield_seq (sel : list Z) (vals : list Z) (new : Z) : list Z :=
+  fst (fold_left (fun (acc : list Z * nat) sj =>
+                    let '(cur, j) := acc in
+                    (set_nth j (if sj <? 0 then new else nth (Z.to_nat sj) cur 0) cur, S j))
+                 sel (vals, O)).
+
 (* ------------------------------------------------------------------ licm *)
 (* op kinds that the generated loop bodies contain; the table mirrors the traits declared in
    xdsl/dialects/{arith,func,memref}.py as read by is_side_effect_free / is_speculatable *)
